@@ -39,7 +39,7 @@ def bounds(tier, seed):
     return {
         "registers": ["pair", "bent3", "zig4"],
         "masks": "all 2^N",
-        "drives": ["global", "dmm", "local"],
+        "drives": ["global", "dmm", "local", "slm (mask x bad atoms x ordering)"],
         "other_noise": {"sv": ["none", "relaxation"], "mps": ["none", "leakage", "relaxation (no-jump trajectory)"]},
         "ordering": "off; on with every p in S_N (N<=3), generators of S_4 (quick) / all of S_4 (thorough)",
     }
@@ -56,14 +56,16 @@ def cases(tier, seed):
     for shape in ("pair", "bent3", "zig4"):
         n = len(SHAPES[shape])
         for mask in itertools.product((0, 1), repeat=n):
-            for kind in ("global", "dmm", "local"):
+            for kind in ("global", "dmm", "local", "slm"):
+                if kind == "slm" and n < 3:
+                    continue
                 for other in ("none", "relaxation"):
                     yield {"backend": "sv", "shape": shape, "kind": kind, "other": other, "mask": list(mask), "perm": None}
                 for other in ("none", "leakage", "nojump_relaxation"):
                     if other == "nojump_relaxation" and kind == "local":
                         continue
                     yield {"backend": "mps", "shape": shape, "kind": kind, "other": other, "mask": list(mask), "perm": None}
-                    if other == "none" and kind != "global":
+                    if other == "none" and kind != "global":  # incl. the SLM kind
                         for p in _answers(n, tier):
                             yield {"backend": "mps", "shape": shape, "kind": kind, "other": other, "mask": list(mask), "perm": p}
 
@@ -74,9 +76,15 @@ def _spec(shape, kind, keep=None):
     d = drives(kind, 0.7, n)
     # the local pulse overlaps the global one (no-delay), so removing the locally addressed atom does not change the duration
     spec = {"coords": coords, "device": "mock", "basis": "rydberg", "pulses": d["pulses"] + [dict(p, protocol="no-delay") for p in d.get("extra", [])]}
-    for k in ("dmm", "local_channel"):
+    for k in ("dmm", "local_channel", "slm"):
         if k in d:
             spec[k] = d[k]
+    if keep is not None and "slm" in spec:
+        left = [keep.index(i) for i in spec["slm"] if i in keep]
+        if left:
+            spec["slm"] = left
+        else:
+            del spec["slm"]  # every masked atom is gone
     if keep is not None:  # reduced register: only the atoms in `keep`
         spec["coords"] = [coords[i] for i in keep]
         if "dmm" in spec:
@@ -193,7 +201,7 @@ def run_case(case):
     if list(res.atom_order) != ids:
         return result(False, sig="atom_order", msg=f"{label}: atom_order {res.atom_order}", outcome="order")
     occ, corr, born = _reference(case)
-    tol = 1e-6 if (case["backend"] == "sv" or good <= 2) else 5e-5
+    tol = 1e-6 if (case["backend"] == "sv" or good <= 2) else (1e-3 if case["kind"] == "slm" and good >= 4 else 5e-5)  # TDVP splitting classes as in C02
     for t in (0.5, 1.0):
         got = runner.to_np(runner.get_at(res, "occupation", t)).astype(float)
         if got.shape != (n,):
